@@ -57,6 +57,16 @@ Definition raw_mod_ok (a : cir) : bool :=
 
 Definition wrap (b : bool) (e : cexp) : cexp := if b then XParen e else e.
 
+(** [arg.startswith("-")] on the text of a compiled operand: "--x" would be C's pre-decrement, so such an operand of a
+    unary minus is parenthesised *)
+Fixpoint starts_minus (x : cexp) : bool :=
+  match x with
+  | XLit v => v <? 0
+  | XNeg _ => true
+  | XBin _ a _ => starts_minus a
+  | _ => false
+  end.
+
 Fixpoint comp_cir (e : cir) (prec : Z) : cexp :=
   match e with
   | CRead x _ => XVar x
@@ -72,7 +82,7 @@ Fixpoint comp_cir (e : cir) (prec : Z) : cexp :=
       | _ => wrap (lp <? prec) (XBin op l r)
       end
   | CStride x d => XStride x d
-  | CUSub a _ => XNeg (comp_cir a usub_prec)
+  | CUSub a _ => let x := comp_cir a usub_prec in XNeg (if starts_minus x then XParen x else x)
   end.
 
 (** ** the text of an emitted expression; variable [x] is printed as "v<x>" (the harness names its symbols so) *)
